@@ -2,8 +2,10 @@ package lint
 
 import (
 	"fmt"
+	"go/token"
 	"go/types"
 	"sort"
+	"strconv"
 	"strings"
 
 	"ikeverif/checker/xt/ssa"
@@ -243,6 +245,176 @@ func (w *slotWorld) strideRule(r *Report, rule string) {
 			} else {
 				r.bad(rule, key, "-", fmt.Sprintf("elements are %s octets apart, the reference layout (%s) makes them %s octets long", cu.Step, spec.Source, ext))
 			}
+		}
+	}
+}
+
+// listStrideAgreement: an encoder that makes every element of a list as long as a size field of the record says
+// (Delete: SPI Size) and a decoder that reads the elements at a fixed stride agree only when that field equals
+// the stride. A decoder that accepts other values of the field reads the elements from the wrong octets, and
+// what it hands back does not survive a second encode/decode. The decoder must refuse (an error-only exit)
+// a size field different from its stride, at least whenever the list is not empty.
+func (w *slotWorld) listStrideAgreement(r *Report, rule string) {
+	c := w.c
+	r.Rule(rule, "where the encoder sizes list elements by a field of the record and the decoder reads them at a fixed stride, the decoder refuses values of that field other than its stride (for a non-empty list)", 1)
+	for _, rec := range w.recs {
+		if !strings.HasSuffix(rec, "[]") {
+			continue
+		}
+		et := w.st.Enc[rec]
+		parent := strings.TrimSuffix(rec, "[]")
+		dt, pt := w.st.Dec[rec], w.st.Dec[parent]
+		if et == nil || dt == nil || pt == nil || len(et.ElemLen) == 0 || len(pt.Funcs) == 0 {
+			continue
+		}
+		// the decoder's stride: the extent of the element's fields
+		stride := int64(0)
+		for _, b := range dt.Bits {
+			if b.W.Off+1 > stride {
+				stride = b.W.Off + 1
+			}
+		}
+		for _, el := range et.ElemLen {
+			key := "decode " + parent + ": elements of " + fmt.Sprint(stride) + " octets, encoder makes them " + el + " long"
+			if n, err := strconv.ParseInt(el, 10, 64); err == nil {
+				r.Check(n == stride, rule, key, "-", "both sides use the same constant element size", "the encoder's element size differs from the decoder's stride")
+				continue
+			}
+			field := strings.TrimPrefix(el, "0 +1*")
+			if field == el || !strings.HasPrefix(field, parent+".") {
+				r.undecided(rule, key, "-", "the element size is not a constant and not a single field of the record")
+				continue
+			}
+			fname := strings.TrimPrefix(field, parent+".")
+			// where the decoder reads that field from
+			off, octets := int64(-1), 0
+			for _, b := range pt.Bits {
+				if b.Field == field || b.Field == fname {
+					if off < 0 || b.W.Off < off {
+						off = b.W.Off
+					}
+					octets = 1
+				}
+			}
+			if off < 0 {
+				r.undecided(rule, key, "-", "the decoder does not store "+field)
+				continue
+			}
+			_ = octets
+			var fn *ssa.Function
+			for _, f2 := range c.ModFuncs {
+				if c.FuncName(f2) == pt.Funcs[0] {
+					fn = f2
+				}
+			}
+			if fn == nil {
+				r.undecided(rule, key, "-", "decoder function does not resolve")
+				continue
+			}
+			f := c.NewFA(fn)
+			x := newBVCtx(c, f)
+			leafAt := func(v ssa.Value) (int64, bool) {
+				for i := 0; i < 3; i++ {
+					if cv, ok := v.(*ssa.Convert); ok {
+						v = cv.X
+						continue
+					}
+					break
+				}
+				id, ok := x.wireLeafOf(v)
+				if !ok {
+					id, ok = x.wireGroupOf(v)
+				}
+				if !ok || !x.leaves[id].Off.isConst() {
+					return 0, false
+				}
+				return x.leaves[id].Off.C, true
+			}
+			// an If comparing a wire leaf with a constant: (leaf offset, constant, op, block)
+			type test struct {
+				off, k int64
+				op     token.Token
+				blk    *ssa.BasicBlock
+			}
+			testOf := func(b *ssa.BasicBlock) (test, bool) {
+				iff, ok := b.Instrs[len(b.Instrs)-1].(*ssa.If)
+				if !ok {
+					return test{}, false
+				}
+				bo, ok := iff.Cond.(*ssa.BinOp)
+				if !ok {
+					return test{}, false
+				}
+				k, ok := bo.Y.(*ssa.Const)
+				if !ok || k.Value == nil {
+					return test{}, false
+				}
+				kv, ok := constInt64(k.Value)
+				if !ok {
+					return test{}, false
+				}
+				o, ok := leafAt(bo.X)
+				if !ok {
+					return test{}, false
+				}
+				return test{o, kv, bo.Op, b}, true
+			}
+			// edge of test t on which "leaf != k" holds (size) / "leaf != 0" holds (count); nil if not of that kind
+			neEdge := func(t test, k int64) (ne, eq *ssa.BasicBlock) {
+				if t.k != k {
+					if k == 0 && t.k == 0 {
+						return nil, nil
+					}
+					return nil, nil
+				}
+				switch t.op {
+				case token.NEQ:
+					return t.blk.Succs[0], t.blk.Succs[1]
+				case token.EQL:
+					return t.blk.Succs[1], t.blk.Succs[0]
+				case token.GTR:
+					if k == 0 {
+						return t.blk.Succs[0], t.blk.Succs[1] // unsigned > 0
+					}
+				}
+				return nil, nil
+			}
+			good := ""
+			for _, b := range fn.Blocks {
+				t, ok := testOf(b)
+				if !ok {
+					continue
+				}
+				if t.off == off {
+					ne, _ := neEdge(t, stride)
+					if ne == nil {
+						continue
+					}
+					if c.onlyErrorExit(ne) {
+						good = "a " + field + " other than " + fmt.Sprint(stride) + " is refused (" + c.InstrPos(b.Instrs[len(b.Instrs)-1]) + ")"
+						break
+					}
+					// ... unless the list is empty: the != edge leads to a test of another field against 0 whose
+					// non-zero edge is error-only
+					if t2, ok := testOf(ne); ok && t2.off != off {
+						if nz, _ := neEdge(t2, 0); nz != nil && c.onlyErrorExit(nz) {
+							good = "a " + field + " other than " + fmt.Sprint(stride) + " is refused when the count is not zero (" + c.InstrPos(b.Instrs[len(b.Instrs)-1]) + ")"
+							break
+						}
+					}
+					continue
+				}
+				// count first: its non-zero edge leads to the size test whose != edge is error-only
+				if nz, _ := neEdge(t, 0); nz != nil {
+					if t2, ok := testOf(nz); ok && t2.off == off {
+						if ne, _ := neEdge(t2, stride); ne != nil && c.onlyErrorExit(ne) {
+							good = "a " + field + " other than " + fmt.Sprint(stride) + " is refused when the count is not zero (" + c.InstrPos(nz.Instrs[len(nz.Instrs)-1]) + ")"
+							break
+						}
+					}
+				}
+			}
+			r.Check(good != "", rule, key, c.Pos(fn.Pos()), good, "the decoder accepts every value of "+field+" but reads the elements "+fmt.Sprint(stride)+" octets apart, while the encoder writes them "+field+" octets apart: a list with "+field+" != "+fmt.Sprint(stride)+" that decodes and encodes again does not decode to the same message")
 		}
 	}
 }
